@@ -4,8 +4,15 @@
    Observation, one triple (f, r, t) per ProcessBlock / Pass call:
      f  0 = handler not called (Pass = false)   1 = handler called exactly once with the very
         same blk and obj (Pass = true)           2 = anything else
+        (W3: "anything else" includes: the block message or the object — whole protobuf message /
+        whole ForkableObject, compared with a snapshot taken right before the call — differs at
+        the handler call, after the call, or after the run; harness/c17.go `changed`)
      r  0 = nil   1 = an error that is not the handler's   2 = the handler's own error value
+        (W3: the very value the handler returned DURING THIS call; every failing handler call
+        returns a value of its own)
      t  number of tripFunc calls made during the call (RealtimeTripper only)
+        (W3: + 10 when tripFunc ran after the handler had been called: rejected by
+        [check_tripper], which asks for exactly 1 resp. 0)
 
    Verdict codes: 0 ok | 1 model and implementation differ | 2 the property checker (declarative:
    first position satisfying the trigger predicate, positions from there on, count of held
